@@ -41,11 +41,7 @@ for name in names:
         json.dump(meta, open(d + "/meta.json", "w"), indent=1)
         subprocess.run("git -C /repo worktree remove --force %s" % wt, shell=True, capture_output=True)
         continue
-    ev = os.path.join(V, "evidence", prop + ".json")
-    bak = None
-    if os.path.exists(ev):
-        bak = ev + ".seedbak"
-        shutil.copy(ev, bak)
+    bak = None  # seeded runs write evidence/<id>-alt.json (removed below), never the real evidence file
     t0 = time.time()
     env = dict(os.environ, VERIF_REPO=wt)
     p = subprocess.run(["./check", prop, "--tier", tier, "--jobs", os.environ.get("SEED_JOBS", "8")], cwd=V, env=env,
@@ -60,10 +56,12 @@ for name in names:
                                inconclusive=[l[:200] for l in inc[:3]], seconds=round(time.time() - t0),
                                claimed_in_manifest=prop in claimed)
     json.dump(meta, open(d + "/meta.json", "w"), indent=1)
-    if bak:
-        shutil.move(bak, ev)
+    try:
+        os.remove(os.path.join(V, "evidence", prop + "-alt.json"))
+    except OSError:
+        pass
     # replay vectors of seeded runs are kept separately
-    rp = os.path.join(V, "replay", prop)
+    rp = os.path.join(V, "replay", prop + "-alt")
     if os.path.isdir(rp):
         dst = os.path.join(V, "replay", "seed-" + name)
         shutil.rmtree(dst, ignore_errors=True)
